@@ -32,6 +32,19 @@ ASSUMPTIONS = [
     'the kernel underneath is the kernel model K (C01-C07 correspondence)',
 ]
 
+BRIDGES = ['C20.rt_step_generated_eq_model', 'C20.rt_sync_generated_eq_model', 'C20.rt_init_generated_eq_model']
+_PREP = {}
+
+
+def prepare(ctx):
+    """regenerate lean/OnlVerif/Generated/Rt20.lean from the source under $ONL_REPO (a translator failure or a bridge
+    theorem that no longer compiles is a broken obligation)"""
+    from py2lean import translate, more
+    _PREP['translated'] = more.TRANSLATED['Rt20']
+    _PREP['rewritten'] = translate.regenerate_all(only=('Rt20',))
+    _PREP['diff_vs_pinned'] = translate.diff_vs_pinned('Rt20')
+
+
 CLOCK_BUDGET = 20000
 STEP_CAP = 400
 FACTORS = [1, 1, 0.5, 0.5, 2, 0.25, 0.125, 4, 0.001, 0.0005]
